@@ -108,7 +108,7 @@ func c05encExec(c *cur) string {
 }
 
 func c05encGen(r *Rng) string {
-	m := r.hostileLeaves(r.c03Map(1)).(map[string]interface{})
+	m := map[string]interface{}{"r": r.hostileLeaves(r.c03Map(1))}
 	// a MapSeq with hostile values: decode a generated document, then replace the leaves
 	g := c01Gen0
 	g.SeqShape, g.Comments, g.MaxDepth = true, false, 2
